@@ -353,17 +353,38 @@ def run_cases(cases):
 
 
 def main():
+    import time
+
     payload = json.load(open(sys.argv[1]))
     cases = payload["cases"]
     workers = int(payload.get("workers", 1))
-    if "--worker" in sys.argv or workers <= 1 or len(cases) <= 1:
+    budget = float(payload.get("budget_s", 420))
+    if "--worker" in sys.argv:
+        # one JSON line per finished case, so that a hanging case (an adaptive solve that never terminates) loses only itself
+        with open(sys.argv[2], "w") as f:
+            for c in cases:
+                f.write(json.dumps(run_cases([c])[0]) + "\n")
+                f.flush()
+        return
+    if workers <= 1 or len(cases) <= 1:
         json.dump({"results": run_cases(cases)}, open(sys.argv[2], "w"))
         return
     workers = min(workers, len(cases))
-    chunks = [[] for _ in range(workers)]
+    # round-robin (every run compiles its own functions anyway)
+    # cases with a "pool" tag (runs under jax.disable_jit(): every primitive is compiled on first use, which dominates)
+    # share dedicated workers so that later cases of the pool reuse the primitives compiled by earlier ones
+    pools = sorted({c["pool"] for c in cases if c.get("pool")})
+    free = max(1, workers - len(pools))
+    chunks = [[] for _ in range(free + len(pools))]
+    k = 0
     for i, c in enumerate(cases):
-        chunks[i % workers].append(i)
+        if c.get("pool"):
+            chunks[free + pools.index(c["pool"])].append(i)
+        else:
+            chunks[k % free].append(i)
+            k += 1
     procs = []
+    t0 = time.time()
     for w, idxs in enumerate(chunks):
         if not idxs:
             continue
@@ -374,14 +395,29 @@ def main():
         procs.append((p, idxs, fin, fout))
     results = [None] * len(cases)
     for p, idxs, fin, fout in procs:
-        p.wait()
+        timed_out = False
+        try:
+            p.wait(timeout=max(1.0, budget - (time.time() - t0)))
+        except subprocess.TimeoutExpired:
+            p.kill()
+            p.wait()
+            timed_out = True
         log = open(fin + ".log").read() if os.path.exists(fin + ".log") else ""
-        if p.returncode != 0 or not os.path.exists(fout):
-            for i in idxs:
+        done = []
+        if os.path.exists(fout):
+            for ln in open(fout):
+                try:
+                    done.append(json.loads(ln))
+                except ValueError:
+                    break
+        for k, i in enumerate(idxs):
+            if k < len(done):
+                results[i] = done[k]
+            elif timed_out:
+                results[i] = {"error": "TIMEOUT: the worker was killed after the time budget" + (" (this run did not terminate)" if k == len(done) else " (not started)"),
+                              "timeout": True}
+            else:
                 results[i] = {"error": f"worker crashed (rc={p.returncode})", "tb": (log or "")[-1500:]}
-        else:
-            for i, r in zip(idxs, json.load(open(fout))["results"]):
-                results[i] = r
         for f in (fin, fout, fin + ".log"):
             if os.path.exists(f):
                 os.remove(f)
